@@ -20,10 +20,12 @@ def condBits (bs : List Bool) : String :=
 
 /-- canonical observable state: stack bottom→top | alt stack bottom→top | condition levels outermost→innermost -/
 def obsModel (e : Model.IEnv) : String :=
-  joinItems e.see.stack ++ "|" ++ joinItems e.see.altstack ++ "|" ++ condBits e.see.cond.toList
+  joinItems e.see.stack ++ "|" ++ joinItems e.see.altstack ++ "|" ++ condBits e.see.cond.toList ++
+    s!"|{e.see.nOpCount}:{e.see.execdata.codesepPos}:" ++ (if e.see.execdata.weightInit then toString e.see.execdata.weightLeft else "-")
 
 def obsSpec (st : Spec.St) : String :=
-  joinItems st.stack.reverse ++ "|" ++ joinItems st.alt.reverse ++ "|" ++ condBits st.cond.reverse
+  joinItems st.stack.reverse ++ "|" ++ joinItems st.alt.reverse ++ "|" ++ condBits st.cond.reverse ++
+    s!"|{st.opCount}:{st.codesepPos}:" ++ (if st.weightInit then toString st.weightLeft else "-")
 
 def hashChain (obs : List String) : String :=
   hex16 (obs.foldl (fun h o => fnvStr h (hex16 (fnvStr fnvInit o))) fnvInit)
